@@ -342,7 +342,7 @@ def _gen_annotations(rng, spec, rich):
                 entry["pfams"].append({"s": s, "e": e, "id": rng.choice(["PF00067", "PF00067.14", "PF13714.3"]),
                                        "desc": rng.choice(["Cytochrome P450", "Type III restriction enzyme, res subunit"]),
                                        "domain": rng.choice([None, "p450"]), "go": go,
-                                       "evalue": rng.choice([1.5e-20, 3e-05, 0.0]), "score": rng.choice([55.5, 101.0]),
+                                       "evalue": rng.choice([1.5e-20, 3e-05, 0.0]), "score": rng.choice([55.5, 101.0, 0.0]),
                                        "domain_id": f"fullhmmer_{gene['name']}_{pfam_no:04d}"})
         if rng.random() < 0.45:
             count = rng.randrange(1, 5)
@@ -359,18 +359,18 @@ def _gen_annotations(rng, spec, rich):
                 entry["asdomains"].append({"s": s, "e": e, "kind": "modular", "hit": hit, "subtypes": subtypes,
                                            "specificity": rng.choice([[], ["consensus: mal"], ["a: b", "c: d"]]),
                                            "asf": rng.choice([[], [], ["active site cysteine present"]]),
-                                           "evalue": rng.choice([1.2e-40, 7e-10, 0.0]), "score": rng.choice([88.8, 300.1])})
+                                           "evalue": rng.choice([1.2e-40, 7e-10, 0.0]), "score": rng.choice([88.8, 300.1, 0.0])})
             entry["nrps_type"] = rng.choice([None, "Type I Modular PKS", "NRPS", "other"])
         if rich and rng.random() < 0.2:
             s = rng.randrange(0, aa - 5)
             entry["asdomains"].append({"s": s, "e": min(aa, s + 20), "kind": "generic", "tool": "verif_tool",
                                        "domain": rng.choice([None, "RRE"]), "asf": [], "label": "generic_lbl",
-                                       "evalue": rng.choice([1e-9, 0.0]), "score": 20.0})
+                                       "evalue": rng.choice([1e-9, 0.0]), "score": rng.choice([20.0, 0.0])})
         if rich and rng.random() < 0.3:
             for mi in range(rng.randrange(1, 3)):
                 s = rng.randrange(0, aa - 4)
                 entry["motifs"].append({"s": s, "e": min(aa, s + rng.randrange(3, 12)), "label": f"C1_{mi}",
-                                        "evalue": rng.choice([4.4e-07, 0.0]), "score": 15.5})
+                                        "evalue": rng.choice([4.4e-07, 0.0]), "score": rng.choice([15.5, 0.0, -3.5])})
         if rich and rng.random() < 0.2 and aa >= 12:
             lead = rng.choice([0, rng.randrange(1, aa - 6)])
             tail = rng.choice([0, 0, rng.randrange(1, 4)])
@@ -585,7 +585,11 @@ def _annotate_cds(record, cds, entry, domain_features):
                                         alternative_weights=pre["alt"], leader=leader, tail=tail))
 
 
+PENDING_MODULES: list = []
+
+
 def build_from_spec(spec: dict) -> Record:
+    del PENDING_MODULES[:]
     quiet()
     record = Record.from_biopython(make_input(spec), taxon="bacteria")
     record.record_index = 1
@@ -616,7 +620,10 @@ def build_from_spec(spec: dict) -> Record:
                         starter=mod["starter"], final=mod["final"], iterative=mod["iterative"])
         for substrate, monomer in mod["monomers"]:
             module.add_monomer(substrate, monomer)
-        record.add_module(module)
+        if spec.get("_hold_modules"):
+            PENDING_MODULES.append(module)      # the caller adds them later (after a first conversion of the record)
+        else:
+            record.add_module(module)
     for proto in spec["protoclusters"]:
         core = record.connect_locations([ordered[i].location for i in proto["_idx"]])
         core = _forward(core)
